@@ -44,7 +44,7 @@ EXPLANATION = (
     "path chains a Z3 fallback and is_valid maps unsat/sat/unknown of the negation to TRUE/FALSE/UNKNOWN; (R3) no IndexError / "
     "ZeroDivisionError / TypeError(ord) / negative-index wraparound in any fast-path constructor; (R4) regex source fragments "
     "compose (quantified slots grouped, class-body slots escaped); (R5) membership uses a DOTALL full match; (R6) each "
-    "handler's body implements the operator its guard names, in Z3's child order; (R7) no verdict cache is keyed by the printed (lossy) form of a Z3 term. NOT decided: numeric agreement with Z3 "
+    "handler's body implements the operator its guard names, in Z3's child order; (R7) no verdict cache is keyed by the printed (lossy) form of a Z3 term; (R8) non-ASCII text is escaped before Z3 parses it and every unicode escape of a literal's as_string() is undone before the fast path compares it. NOT decided: numeric agreement with Z3 "
     "for every value (rounding of real division, str.to.int of non-numerals), Z3's own verdicts."
 )
 
@@ -881,6 +881,9 @@ def _lossy_print(e: ast.AST, z3_params, lossy_names) -> bool:
 def run(ctx) -> str:
     _cache.clear()
     ctx.guarded("R7", lambda: rule_r7(ctx))
+    from . import c17
+
+    ctx.guarded("R8", lambda: c17.rule_s5(ctx, "R8", with_escape_char=False))
     ctx.guarded("R1", lambda: rule_r1(ctx))
     ctx.guarded("R2", lambda: rule_r2(ctx))
     ctx.guarded("R3", lambda: rule_r3(ctx))
